@@ -342,7 +342,7 @@ MANIFEST_TEXT = {
             "Sinks record every call (sink, tag, size, content check, virtual time); the sequence is compared with the documented "
             "protocol (two initial calls, right sink and tag, one closing call per closing piped stream, stop at first non-zero "
             "result, ETIMEDOUT at the deadline, 0 only with both streams closed); string sinks are checked for exact content, "
-            "also with a prefix and when realloc fails at step k; reproc_run_ex must return the kernel's status.",
+            "also with a prefix and when realloc fails at step k; reproc_run_ex and reproc_run must return the kernel's status (or the timeout error when every wait of the stop policy expired), and reproc_run without redirect options must hand the child the parent's own streams.",
             "positive sink results are not errors for run; the C++ pass is real-time, so it asserts no timing",
             "DESIGN.md 3/C16"),
     "C17": ("io", "runtime monitor: virtual-time advance inside read/write at the libc boundary; O_NONBLOCK state of the descriptor",
@@ -356,7 +356,7 @@ MANIFEST_TEXT = {
             "Call sites are discovered by tracing each scenario, not listed by hand, so the enumeration follows the code. After each "
             "faulted start the monitor checks the two consistent outcomes only: failure with the real errno, no child left, pid EINVAL, "
             "handle restartable - or success with a positive forked pid whose program said hello.",
-            "one plausible errno per call plus EINTR; faults at the libc boundary only; build with NDEBUG (the shipped configuration) so injected close/sigmask failures reach release behaviour",
+            "one plausible errno per call plus EINTR, and for getrlimit two value faults (unlimited / above the library's ceiling); scenarios include a caller without standard streams and a working directory longer than one getcwd step; faults at the libc boundary only; build with NDEBUG (the shipped configuration) so injected close/sigmask failures reach release behaviour",
             "DESIGN.md 3/C04"),
     "C05": ("fault", "ownership ledger (fd + heap) at the libc boundary + /proc/self/fd snapshot + child census, under fault enumeration",
             "Every descriptor and allocation the library acquires is entered in a ledger inside the interposed call; closes and frees "
